@@ -623,7 +623,8 @@ func UploadFolderHandler(rwc io.ReadWriter, fullPath string, fileTransfer *FileT
 				}
 
 				if err := receiveFile(rwc, file, io.Discard, io.Discard, fileTransfer.bytesSentCounter); err != nil {
-					rLogger.Error(err.Error())
+					// Keep the partial file under its .incomplete name so that the upload can be resumed again.
+					return err
 				}
 
 				err = os.Rename(fullPath+"/"+fu.FormattedPath()+".incomplete", fullPath+"/"+fu.FormattedPath())
